@@ -481,3 +481,9 @@ package tchannel
 //@   loop 0 step count == int(prev(count) + nexch(c.outbound))
 //@   loop 1 step count == int(prev(count) + nexch(c.outbound))
 //@   property C15
+
+// A member's score changes only where the heap is repaired right after it
+// (PeerList.updatePeer: record the score, then heap.Fix around that element) or
+// where the element is created: heap.Fix is only correct when a single key
+// changed since the heap was last in order.
+//@ writers peerScore.score : newPeerScore, updatePeer
